@@ -255,6 +255,18 @@ def run(vc):
                     p.prove(f"relay:monotone[{rtype},{curve},{scenario}]", _le_ext(t2, t1),
                             note="trip time is non-increasing in the current", watch={"i1": to_z(i1, R), "i2": to_z(i2, R)})
                 vc.explore(f"OCRelay.protection_function[{rtype},{curve},{scenario}]", h_rel, max_paths=60)
+    _standins(vc)
+
+
+def _standins(vc):
+    if not hasattr(vc, "native_standins"):
+        vc.native_standins = []
+    vc.native_standins.append(dict(
+        name="fuse evaluated, re-parameterised and evaluated again",
+        bound="one fuse with two fixed monotone characteristics (5 and 6 points): after create_characteristic with the second data set, 66 "
+              "currents: trip iff current >= new start, melting time non-increasing, data points reproduced (history of one device object: the "
+              "deductive part treats one evaluation of a device whose characteristic is given)",
+        script="from replaylib.protection import fuse_reparameterised\nfuse_reparameterised()\n"))
 
 
 def classify(ob, model):
